@@ -10,7 +10,8 @@ RULE = ("table: all 12x12 status pairs through can_transition and the model (exh
         "thorough: also N_OF_M 1), signal x 2, cancel x 2 and cancelrun x 3 (CancelStage vs the RunTask result commit for success / "
         "running-with-context / terminal) and cancelstart x 3 (CancelStage vs StartStage of a NOT_STARTED stage: 1 / 2 tasks with the CancelStage "
         "pushed directly so that the workflow cancel flag is not set, and 1 task with the CancelStage fanned out by a CancelWorkflow handled in the "
-        "prefix) at EVERY legal injection point in both directions; every status change of a stage / task / workflow row "
+        "prefix) and the two workflow-row pairs (StartWorkflow / CompleteWorkflow x CancelWorkflow, FIFO and newest-first drain) "
+        "at EVERY legal injection point in both directions; every status change of a stage / task / workflow row "
         "committed during the pair and the following drain is checked against can_transition")
 ASSUMPTIONS = ["AFTER UPDATE OF status triggers observe exactly the durable changes (rows of a rolled-back transaction vanish)"] + engine_pairs.ASSUMPTIONS
 TRUSTED_BASE = ["engine part: the hand-written Engine model is tied to the handlers by the Mode-A trace differential only",
